@@ -18,7 +18,12 @@ struct KT;
     struct KT<K>                                                                       \
     {                                                                                  \
         using V = TYPE;                                                                \
-        static V gen(S& s, Ctx& c, const GenOpts& o) { return GEN(s, c, o); }          \
+        static V gen(S& s, Ctx& c, const GenOpts& o)                                   \
+        {                                                                              \
+            V v = GEN(s, c, o);                                                        \
+            chunk_align(K, v, s, c);                                                   \
+            return v;                                                                  \
+        }                                                                              \
         static LibBytes enc(const V& v) { return v.ENC(); }                            \
         static V dec(const LibBytes& b) { return V::DEC(b); }                          \
     };
